@@ -423,17 +423,43 @@ def run_init(ck_ob, mod, label):
           "reinit does not reset the whole state like init does: not established: %s (calls %s)" % (missing, [(e[2], e[3]) for e in ev]),
           relpath("%s:%d" % (g.file, g.line)))
     h = mod.fn("tinyjambu_hash")
-    ex3 = make_exec(h)
+
+    class _Snap(Handler):
+        """records what the local state holds when the data is handed to hash_update (the state may be initialised by the public
+        init/reinit or directly by the same stores, e.g. through an inlined static helper)"""
+        def __call__(self, ex, p, I, callee, args):
+            if (callee or "") == "tinyjambu_hash_update":
+                obj, off = mode.ptr_of(ex, p, args[0])
+                if obj is not None and obj[0] == "alloca" and off.const() == 0:
+                    p.events.append(("SNAP", words_at(p, obj, 0, 4), words_at(p, obj, 16, 4), words_at(p, obj, 48, 1)))
+            return Handler.__call__(self, ex, p, I, callee, args)
+    ex3 = make_exec(h, handler=_Snap())
     ps = ex3.run()
     okseq = False
     desc = ""
+    ev = []
+    recognised = False
     if len(ps) == 1 and ps[0].end[0] == "ret":
         ev = [e for e in ps[0].events if e[0] == "CALL"]
+        snap = [e for e in ps[0].events if e[0] == "SNAP"]
         desc = [(e[2], e[3]) for e in ev]
-        if [e[2] for e in ev] == ["tinyjambu_hash_init", "tinyjambu_hash_update", "tinyjambu_hash_finalize", "tinyjambu_hash_free"]:
+        names_ = [e[2] for e in ev]
+        A_IN, A_N, A_OUT = repr(Lf.s(("arg", 1))), repr(Lf.s(("n", 2))), repr(Lf.s(("arg", 0)))
+        size_ = str(mod.typedef_size("tinyjambu_hash_state_t"))
+        if names_[:1] in (["tinyjambu_hash_init"], ["tinyjambu_hash_reinit"]) and len(names_) == 4:
+            initd = True
+            body = ev[1:]
             stp = ev[0][3][0]
-            okseq = ev[1][3] == (stp, repr(Lf.s(("arg", 1))), repr(Lf.s(("n", 2)))) and ev[2][3] == (stp, repr(Lf.s(("arg", 0)))) and ev[3][3] == (stp,) and stp.startswith("alloca")
-    if not okseq and (len(ps) != 1 or [e[2] for e in ev] != ["tinyjambu_hash_init", "tinyjambu_hash_update", "tinyjambu_hash_finalize", "tinyjambu_hash_free"]):
+        else:
+            body = ev
+            stp = ev[0][3][0] if ev else ""
+            # initialised in place: at the update call L = 0, stored k[0..3] = all-ones (R = 0), position 0
+            initd = len(snap) == 1 and mode.words_eq(snap[0][1], [W(0)] * 4) and mode.words_eq(snap[0][2], [W(0xFFFFFFFF)] * 4) and mode.words_eq(snap[0][3], [W(0)])
+        if len(body) == 3 and [e[2] for e in body[:2]] == ["tinyjambu_hash_update", "tinyjambu_hash_finalize"] and body[2][2] in ("tinyjambu_hash_free", "tinyjambu_clean"):
+            recognised = True
+            wiped = body[2][3] == (stp,) if body[2][2] == "tinyjambu_hash_free" else body[2][3] == (stp, size_)
+            okseq = initd and stp.startswith("alloca") and body[0][3] == (stp, A_IN, A_N) and body[1][3] == (stp, A_OUT) and wiped
+    if not recognised:
         raise Broken("tinyjambu_hash (one-shot) is not written as init; update; finalize; free on a local state (calls %s): this shape is not analysed" % (desc,))
     ck_ob(okseq, "ONESHOT", h.name, "one-shot[%s]" % label, "hash(out,in,inlen) = init; update(in,inlen); finalize(out); free on one local state",
           "one-shot hash is not init; update(in,inlen); finalize(out); free: %s" % (desc,), relpath("%s:%d" % (h.file, h.line)))
